@@ -38,7 +38,7 @@ func NewGen() *Gen {
 		funSeen: map[string]bool{}, strLits: map[string]string{}, errGlobals: map[string]int{},
 		usedExt: map[string]bool{}, sortOfType: map[string]string{},
 	}
-	for _, n := range []string{"decquo", "nlmul", "band", "bor", "bxor", "strlen", "strcat", "strlt", "strcontains", "strhasprefix", "addrStr", "addrOf", "validAddr"} {
+	for _, n := range []string{"decquo", "nlmul", "nl_div", "nl_tdiv", "nl_mod", "nl_tmod", "band", "bor", "bxor", "strlen", "strcat", "strlt", "strcontains", "strhasprefix", "addrStr", "addrOf", "validAddr"} {
 		g.funSeen[n] = true
 	}
 	return g
@@ -527,6 +527,16 @@ const preludeFuns = `
 (assert (forall ((a Int)) (! (= (nlmul a 1) a) :pattern ((nlmul a 1)))))
 (assert (forall ((a Int)) (! (= (nlmul 1 a) a) :pattern ((nlmul 1 a)))))
 (declare-fun decquo (Int Int) Int)
+(declare-fun nl_div (Int Int) Int)
+(declare-fun nl_tdiv (Int Int) Int)
+(declare-fun nl_mod (Int Int) Int)
+(declare-fun nl_tmod (Int Int) Int)
+(assert (forall ((a Int) (b Int)) (! (=> (and (>= a 0) (> b 0)) (and (>= (nl_div a b) 0) (<= (nl_div a b) a) (= (nl_tdiv a b) (nl_div a b)))) :pattern ((nl_div a b)))))
+(assert (forall ((a Int) (b Int)) (! (=> (and (>= a 0) (> b 0)) (and (>= (nl_tdiv a b) 0) (<= (nl_tdiv a b) a) (= (nl_tdiv a b) (nl_div a b)))) :pattern ((nl_tdiv a b)))))
+(assert (forall ((a Int) (b Int)) (! (=> (> b 0) (and (>= (nl_mod a b) 0) (< (nl_mod a b) b))) :pattern ((nl_mod a b)))))
+(assert (forall ((a Int) (b Int)) (! (=> (and (>= a 0) (> b 0)) (and (>= (nl_tmod a b) 0) (< (nl_tmod a b) b))) :pattern ((nl_tmod a b)))))
+(assert (forall ((a Int)) (! (= (nl_div a 1) a) :pattern ((nl_div a 1)))))
+(assert (forall ((a Int)) (! (= (nl_tdiv a 1) a) :pattern ((nl_tdiv a 1)))))
 (declare-fun band (Int Int) Int)
 (declare-fun bor (Int Int) Int)
 (declare-fun bxor (Int Int) Int)
@@ -568,4 +578,13 @@ func mulTerm(a, b string) string {
 		return fmt.Sprintf("(* %s %s)", a, b)
 	}
 	return fmt.Sprintf("(nlmul %s %s)", a, b)
+}
+
+// divTerm: division/modulus by a numeral stays in linear arithmetic; a symbolic divisor goes through uninterpreted
+// nl_<op> with sound axioms (same idea as mulTerm).
+func divTerm(op, a, b string) string {
+	if numeralRe.MatchString(b) && b != "0" {
+		return fmt.Sprintf("(%s %s %s)", op, a, b)
+	}
+	return fmt.Sprintf("(nl_%s %s %s)", op, a, b)
 }
